@@ -392,9 +392,9 @@ pub fn check(ctx: &mut Ctx) {
     ];
     run_indexed(ctx, "perm", 256, &|i| Some(PermCase { list_perm: i as u8, res_perm: None }), &check_perm);
     ctx.extra.insert("perm_grid".into(), json!({"pairs": 65536, "exhaustive": true}));
-    let n = ctx.tier.pick(30_000, 1_500_000);
+    let n = ctx.tier.pick(250_000, 2_500_000);
     drive(ctx, "graphs", n, 200, &decode_graph, &check_graph);
-    let n = ctx.tier.pick(40_000, 2_000_000);
+    let n = ctx.tier.pick(400_000, 4_000_000);
     drive(ctx, "args", n, 120, &decode_args, &check_args);
 }
 
